@@ -32,9 +32,15 @@ Proof. exact (sc_rejects_iff ord laws t xs Hwf Hxs Hlen). Qed.
 
 (* every returned index c satisfies order <= c <= nknots-order-2; in the fully supported range it brackets
    the coordinate (knot[c] <= x < knot[c+1]); below it is the first, from knot[naxes] upwards the last
-   fully supported interval *)
+   fully supported interval of positive width at or below x *)
 Theorem C04_post : forall cs, searchcenters t xs = CFound cs -> Forall3 center_post (dims t) xs cs.
 Proof. exact (sc_post ord laws t xs Hwf Hxs Hlen). Qed.
+
+(* in particular: from knots[naxes] upwards, unless x sits on a knot repeated there, the index is the last fully
+   supported span naxes-1; on a repeated knot it is the nearest span of positive width below (third clause of
+   [center_post]: everything stepped over equals x, and knots[c] < x or c = order) *)
+Theorem C04_post_last : forall cs, searchcenters t xs = CFound cs -> Forall3 center_last (dims t) xs cs.
+Proof. exact (sc_post_last ord laws t xs Hwf Hxs Hlen). Qed.
 
 (* the convenience call operator: zero when the lookup fails, the evaluated value otherwise *)
 Theorem C04_call_operator :
@@ -65,5 +71,6 @@ Print Assumptions C04_terminates.
 Print Assumptions C04_accepts_iff.
 Print Assumptions C04_rejects_iff.
 Print Assumptions C04_post.
+Print Assumptions C04_post_last.
 Print Assumptions C04_call_operator.
 Print Assumptions C04_hypotheses_satisfiable.
